@@ -627,7 +627,7 @@ func openStore(dir string, options StoreOptions) (*Store, error) {
 			continue
 		}
 
-		if !options.KeepFiles {
+		if !options.KeepFiles && !options.CollectionOptions.ReadOnly {
 			rmFiles := append(fnames[0:i], fnames[i+1:]...)
 			if options.CollectionOptions.Log != nil {
 				options.CollectionOptions.Log("store: openStore,"+
